@@ -259,18 +259,19 @@ def check(ctx, res) -> None:
             attrs = [aliases.get(x.attr, x.attr) for x in ast.walk(c.args[0]) if is_self_attr(x)]
             if attrs:
                 worder.append(attrs[0])
-    lorder: Dict[int, str] = {}
+    lpairs = []
     for n in walk_local(ld.node):
         if isinstance(n, ast.For) and isinstance(n.iter, ast.Subscript) and isinstance(n.iter.slice, ast.Constant):
             for c in calls_in(n):
                 if isinstance(c.func, ast.Attribute) and c.func.attr == "append" and is_self_attr(c.func.value):
-                    lorder[n.iter.slice.value] = aliases.get(c.func.value.attr, c.func.value.attr)
-    if len(worder) < 2 or len(lorder) < 2:
+                    lpairs.append((n.iter.slice.value, aliases.get(c.func.value.attr, c.func.value.attr)))
+    lorder = sorted(set(lpairs))
+    if len(worder) < 2 or len(lpairs) < 2:
         res.undecided("R12.7", "History.write|_load_history", wr.where, "writer/loader shape not recognised")
     else:
-        ok = all(lorder.get(i) == a for i, a in enumerate(worder)) and len(lorder) == len(worder)
+        ok = lorder == sorted(enumerate(worder))
         res.add("R12.7", "History.write|_load_history", ok, ld.where,
-                f"writer saves {worder}, loader restores index->{lorder}" if ok else
+                f"writer saves {worder}, loader restores (index, list) pairs {lorder}" if ok else
                 f"History.write saves lists in order {worder} but _load_history restores {lorder}: undo and redo lists are swapped or lost on reload")
 
 
